@@ -299,6 +299,7 @@ def run_case(case, repo_checks=True):
     trace = Trace(sched)
     faults = FaultPlan(case.get('faults'), trace)
     fs = fakefs.MemFS(sched, trace, faults)
+    fs.wbuf = case.get('fs_buffer') or 0
     svc = FakeS3(sched, trace, faults, case.get('scripts'),
                  strict_params=case.get('strict', True))
     R = Result()
